@@ -3,7 +3,9 @@ from concurrent.futures import ThreadPoolExecutor
 
 VERIF = os.path.dirname(os.path.dirname(os.path.abspath(__file__)))
 REPO = os.environ.get('VERIF_REPO', '/repo')
-BUILD = os.path.join(VERIF, 'build')
+ALT = os.path.realpath(REPO) != '/repo'   # mutant self-test: keep build cache and evidence of the real tree untouched
+BUILD = os.path.join(VERIF, 'build', 'alt') if ALT else os.path.join(VERIF, 'build')
+EVDIR = os.path.join(BUILD, 'evidence') if ALT else os.path.join(VERIF, 'evidence')
 NCPU = int(os.environ.get('VERIF_JOBS', '16'))
 CXX = os.environ.get('VERIF_CXX', 'g++')
 
@@ -139,8 +141,8 @@ def load_known():
 
 
 def write_evidence(cid, ev):
-    os.makedirs(os.path.join(VERIF, 'evidence'), exist_ok=True)
-    p = os.path.join(VERIF, 'evidence', cid + '.json')
+    os.makedirs(EVDIR, exist_ok=True)
+    p = os.path.join(EVDIR, cid + '.json')
     tmp = p + '.tmp'
     json.dump(ev, open(tmp, 'w'), indent=1, sort_keys=False)
     os.replace(tmp, p)
@@ -192,6 +194,8 @@ def run_check(cid, tier, cfg):
     tot = dict(evaluations=0, nontrivial=0, total_cases={}, duplicates=0, capped=False)
     classes, counters, samples, viols = {}, {}, [], []
     inconclusive = []
+    per_unit = {}  # units built from the same source with the same arguments run the same cases in another
+    # build configuration: they are counted once in distinct_nontrivial (max over the group)
     for (u, k, cmd, env, out), r in zip(jobs, results):
         data = None
         if os.path.exists(out):
@@ -216,8 +220,10 @@ def run_check(cid, tier, cfg):
             inconclusive.append('unit %s shard %d produced no result (rc=%s): %s' % (u['name'], k, r['rc'], r['stderr'][-1500:]))
             continue
         tot['evaluations'] += data['evaluations']
-        tot['nontrivial'] += data['nontrivial']
         tot['duplicates'] += data['duplicates']
+        gk = (str(u['src']), tuple(u['args']))
+        per_unit.setdefault(gk, {}).setdefault(u['name'], 0)
+        per_unit[gk][u['name']] += data['nontrivial'] - data['duplicates']
         tot['total_cases'][u['name']] = data['total_cases']
         tot['capped'] = tot['capped'] or data['capped']
         for c, n in data['classes'].items():
@@ -273,8 +279,8 @@ def run_check(cid, tier, cfg):
     level = cfg['level']
     cov = dict(
         evaluations=tot['evaluations'],
-        distinct_nontrivial=max(0, tot['nontrivial'] - tot['duplicates']),
-        rule=cfg['rule'],
+        distinct_nontrivial=sum(max(0, max(g.values())) for g in per_unit.values()),
+        rule=cfg['rule'] + ' evaluations counts (case, build configuration) pairs; distinct_nontrivial counts each case once however many configurations ran it.',
         samples=samples,
         exhaustive=(not tot['capped']) and not inconclusive,
         enumerated_cases_per_unit=tot['total_cases'],
